@@ -2,6 +2,7 @@ package mon
 
 import (
 	"fmt"
+	"strings"
 
 	"github.com/intuitivelabs/sipsp"
 
@@ -242,6 +243,110 @@ func RunC11(r *core.Run) {
 			})
 		}
 		w.Eval(1)
+	})
+	// functions with TWO (buffer, offset) operands: each text may sit anywhere in its own buffer
+	cmpNames := []string{"transport", "user", "ttl", "maddr", "method", "lr", "x", "y-z", "Foo", "p1", "subject", "priority", "to"}
+	cmpVals := []string{"", "1", "tcp", "UDP", "phone", "a.b", "10.0.0.1", "Urgent", "%20x"}
+	r.Stage("two-operand-comparisons", r.Pick(300000, 20000000), func(w *core.Worker, idx int64) {
+		rr := core.NewRand(r.Seed, 0xC11, 4, uint64(idx))
+		hdrs := rr.Bool()
+		sep := ";"
+		if hdrs {
+			sep = "&"
+		}
+		perm := rr.Perm(len(cmpNames))
+		k := rr.Range(1, 5)
+		var ia, ib []string
+		for i := 0; i < k; i++ {
+			nm, v := cmpNames[perm[i]], cmpVals[rr.Intn(len(cmpVals))]
+			it := nm
+			if v != "" || hdrs {
+				it += "=" + v
+			}
+			ia = append(ia, it)
+			it2 := gen.RandCase(rr, nm)
+			if v != "" || hdrs {
+				it2 += "=" + v
+			}
+			ib = append(ib, it2)
+		}
+		switch rr.Intn(4) {
+		case 0: // same list, other order
+			for i := len(ib) - 1; i > 0; i-- {
+				j := rr.Intn(i + 1)
+				ib[i], ib[j] = ib[j], ib[i]
+			}
+		case 1: // one value differs
+			ib[rr.Intn(len(ib))] += "x"
+		case 2: // one entry missing
+			ib = ib[:len(ib)-1]
+		}
+		a, b := []byte(strings.Join(ia, sep)), []byte(strings.Join(ib, sep))
+		fn := sipsp.URIParamsEq
+		name := "URIParamsEq"
+		if hdrs {
+			fn, name = sipsp.URIHdrsEq, "URIHdrsEq"
+		}
+		var eq0, eq1 bool
+		var e0, e1 sipsp.ErrorHdr
+		k1, k2 := rr.Intn(40), rr.Intn(40)
+		if rr.Intn(4) == 0 {
+			k1 = 0
+		}
+		s := sc(w)
+		b1 := append([]byte(nil), shiftBuf(rr, s.buf, a, k1)...)
+		b2 := append([]byte(nil), shiftBuf(rr, s.buf, b, k2)...)
+		pan, pmsg, _ := core.Guard(func() {
+			eq0, e0 = fn(a, 0, b, 0)
+			eq1, e1 = fn(b1, k1, b2, k2)
+		})
+		w.Eval(2)
+		if pan || eq0 != eq1 || e0 != e1 {
+			w.Fail("two-operand/"+name, func() *core.Violation {
+				return core.V(fmt.Sprintf("%s(%q,0,%q,0) = (%v,%s) but with the first text at offset %d and the second at offset %d of their buffers: (%v,%s) %s",
+					name, a, b, eq0, errName(e0), k1, k2, eq1, errName(e1), pmsg), b1, map[string]any{"second_buffer": core.Esc(b2), "offs1": k1, "offs2": k2})
+			})
+			return
+		}
+		if k1 != k2 {
+			w.Nontrivial(core.HashBytes(a) ^ core.HashBytes(b)<<1 ^ uint64(k1)<<50 ^ uint64(k2)<<56)
+		}
+	})
+	// the message signature is computed from fields of a message that may start anywhere
+	r.Stage("signature-at-offset", r.Pick(60000, 4000000), func(w *core.Worker, idx int64) {
+		rr := core.NewRand(r.Seed, 0xC11, 5, uint64(idx))
+		m := gen.Msg(rr, gen.MsgOpts{MinHdrs: 4, MaxHdrs: 14, Request: 1})
+		k := pickK(rr, len(m.Raw))
+		if k == 0 {
+			k = 1 + rr.Intn(30)
+		}
+		s := sc(w)
+		s.buf = shiftBuf(rr, s.buf, m.Raw, k)
+		var m0, mk sipsp.PSIPMsg
+		var s0, sk sipsp.MsgSig
+		var e0, ek, p0, pk sipsp.ErrorHdr
+		pan, pmsg, _ := core.Guard(func() {
+			m0.Init(nil, nil, nil)
+			mk.Init(nil, nil, nil)
+			_, p0 = sipsp.ParseSIPMsg(m.Raw, 0, &m0, 0)
+			_, pk = sipsp.ParseSIPMsg(s.buf, k, &mk, 0)
+			if p0 == sipsp.ErrHdrOk && pk == sipsp.ErrHdrOk {
+				s0, e0 = sipsp.GetMsgSig(&m0)
+				sk, ek = sipsp.GetMsgSig(&mk)
+			}
+		})
+		w.Eval(2)
+		if p0 != sipsp.ErrHdrOk || pk != sipsp.ErrHdrOk {
+			return // verdict differences are the other stages' business
+		}
+		if pan || e0 != ek || s0 != sk {
+			buf := append([]byte(nil), s.buf...)
+			w.Fail("signature-at-offset", func() *core.Violation {
+				return core.V(fmt.Sprintf("GetMsgSig of the message parsed at offset 0: %q (%s); of the same message parsed at offset %d: %q (%s) %s", s0.String(), errName(e0), k, sk.String(), errName(ek), pmsg), buf, map[string]any{"k": k})
+			})
+			return
+		}
+		w.Nontrivial(core.HashBytes(m.Raw) ^ uint64(k)<<48)
 	})
 	r.Require("C11 non-trivial cases", r.Counter("nontrivial_cases"), 10000)
 }
